@@ -143,6 +143,7 @@ def main():
     model_only = []   # code == spec but Impl model differs (correspondence off, property intact there)
     dist = {}
     nontriv = set()
+    metamorphic = 0
     cmp_fn = getattr(P, "compare", None)
     for i, (line, kind) in enumerate(cases):
         dist[kind] = dist.get(kind, 0) + 1
@@ -150,13 +151,15 @@ def main():
         if cmp_fn:
             verdict = cmp_fn(line, kind, row)
         else:
-            verdict = default_compare(row, variants)
+            verdict = default_compare(row, variants, kind)
         if verdict[0] == "fail":
             failing.append({"line": line, "kind": kind, "answers": row, "why": verdict[1]})
         elif verdict[0] == "model":
             model_only.append({"line": line, "kind": kind, "answers": row, "why": verdict[1]})
         if P.nontrivial(line, kind, row):
             nontriv.add(line)
+        if row.get("spec") == "=" or (row.get("spec") in (None, "?") and row.get("impl") == "="):
+            metamorphic += 1
     extra = {}
     if hasattr(P, "extra_checks"):
         extra = P.extra_checks(tier, rng, variants, broken, failing) or {}
@@ -206,7 +209,7 @@ def main():
             mouts["spec"] = cx.run_exec([cx.CXDRV, "spec"], mlines)
             for i, (line, kind) in enumerate(more):
                 row = {k: o[i] for k, o in mouts.items()}
-                verdict = cmp_fn(line, kind, row) if cmp_fn else default_compare(row, variants)
+                verdict = cmp_fn(line, kind, row) if cmp_fn else default_compare(row, variants, kind)
                 if verdict[0] == "fail":
                     failing.append({"line": line, "kind": kind, "answers": row, "why": verdict[1]})
             widened = len(more)
@@ -261,11 +264,16 @@ def main():
                            + (" && lake env leanchecker <module>" if tier == "thorough" else ""),
             "trusted_base": getattr(P, "TRUSTED", []) + [
                 "Lean 4.33 kernel", "axioms allowed: propext, Classical.choice, Quot.sound (per-theorem list in axioms_by_theorem)",
-                "tools/extract_tables.py (translator), tools/run_check.py + harness/ + lean/Main.lean (correspondence)",
+                "the source-to-Lean translators: tools/extract_tables.py (constant tables), tools/kernel_translate.py, tools/ktx_words.py, "
+                "tools/ktx_misc.py, tools/ktx_glue*.py with the kernel specs tools/kernels/*.py (they fix, per kernel, the integer semantics "
+                "emitted: mathematical / wrapping / checked) — a translator bug that mistranslates source AND matches the hand model is caught only "
+                "by the differential correspondence",
+                "tools/run_check.py + harness/ + lean/Main.lean (correspondence), tools/spec_oracles.py (Spec vs standards)",
                 "rustc/cargo, the OS"],
             "evaluations": len(cases), "distinct_nontrivial": len(nontriv),
             "rule": P.RULE, "samples": samples,
-            "traces_validated_against_impl": len(cases) if variants else 0,
+            "traces_validated_against_impl": (len(cases) - metamorphic) if (variants and driver_ok) else 0,
+            "metamorphic_self_consistency_cases": metamorphic,
             "input_distribution": dist,
             "harness_variants": variants,
             "theorems": [t for (t, _) in thms],
@@ -276,6 +284,8 @@ def main():
             "extracted_tables": ext["tables"],
             "exhaustive": False,
             "spec_validated_against_standards": spec_oracle,
+            "proof_scope": getattr(P, "PROOF_SCOPE", "complete for the modelled code: every clause of the property is a theorem about the models; "
+                                   "the models are tied to the source by translator ties and the correspondence"),
             "discharged_hypotheses": cx.hypotheses_of(mods)[1],
             "partial_theorems": cx.hypotheses_of(mods)[2],
             **extra,
@@ -292,7 +302,7 @@ def main():
     sys.exit(status)
 
 
-def default_compare(row, variants):
+def default_compare(row, variants, kind=""):
     """code must equal the Spec (or, where there is no separate Spec, the proved Impl model)"""
     spec = row.get("spec")
     impl = row.get("impl")
@@ -307,6 +317,9 @@ def default_compare(row, variants):
                 return ("fail", f"code[{v}] answers {c[:120]}: the fields (one call / chunked / one-shot) must be equal by the "
                                 "chunking-independence theorems")
         return ("ok", "")
+    if want in ("bad-op", "bad-args", "bad-prog") and all(c == want for c in codes) and "malformed" not in kind:
+        return ("fail", f"every executor answers {want}: the case line is not understood by the op tables (generator / driver "
+                        "defect): nothing was checked by it")
     for v, c in zip(variants, codes):
         if c != want:
             return ("fail", f"code[{v}]={c[:80]} but {'Spec' if spec not in (None, '?') else 'proved model'} demands {want[:80]}")
@@ -316,4 +329,12 @@ def default_compare(row, variants):
 
 
 if __name__ == "__main__":
-    main()
+    try:
+        main()
+    except SystemExit:
+        raise
+    except BaseException as e:  # noqa — a failure of the machinery itself (timeout, tool crash) is not a verdict about the code
+        import traceback
+        traceback.print_exc()
+        print(f"ERROR: the check machinery failed ({type(e).__name__}: {e}); no verdict")
+        sys.exit(2)
